@@ -19,7 +19,7 @@ import (
 
 // which obligation kinds carry which property when the clause itself is not tagged
 var safetyKinds = map[string]bool{"index": true, "slice": true, "nil": true, "typeassert": true, "panic": true, "div": true, "makeslice": true, "decreases": true}
-var functionalKinds = map[string]bool{"post": true, "inv-entry": true, "inv-preserved": true, "pre": true}
+var functionalKinds = map[string]bool{"post": true, "inv-entry": true, "inv-preserved": true, "pre": true, "always": true}
 var frameKinds = map[string]bool{"frame": true, "frame-call": true, "closure-contract": true}
 
 type propSpec struct {
@@ -255,9 +255,26 @@ func runCheck(id, tier, repo, verif string, writeEvidence bool) int {
 
 	// ---- verdicts ----
 	known := map[string]exceptionEntry{}
+	var knownPrefix []exceptionEntry
 	for _, f := range exc.Findings {
 		if f.Property == id {
-			known[f.Obligation] = f
+			if strings.HasSuffix(f.Obligation, "*") {
+				knownPrefix = append(knownPrefix, f)
+			} else {
+				known[f.Obligation] = f
+			}
+		}
+	}
+	// a finding whose obligation ends in * covers every obligation with that prefix (one defect, several clauses)
+	expandKnown := func(name string) {
+		if _, ok := known[name]; ok {
+			return
+		}
+		for _, f := range knownPrefix {
+			if strings.HasPrefix(name, strings.TrimSuffix(f.Obligation, "*")) {
+				known[name] = f
+				return
+			}
 		}
 	}
 	unclaimed := map[string]exceptionEntry{}
@@ -268,6 +285,9 @@ func runCheck(id, tier, repo, verif string, writeEvidence bool) int {
 	}
 	var witnessEntries []exceptionEntry
 	for _, f := range known {
+		witnessEntries = append(witnessEntries, f)
+	}
+	for _, f := range knownPrefix {
 		witnessEntries = append(witnessEntries, f)
 	}
 	witness, witnessOut := P.runWitnesses(witnessEntries, tmp)
@@ -291,6 +311,7 @@ func runCheck(id, tier, repo, verif string, writeEvidence bool) int {
 		}
 	}
 	violations := 0
+	printedKnown := map[string]bool{}
 	var knownHit []string
 	var unclaimedHit []string
 	report := func(name, kind, detail string, res *oblResult) {
@@ -341,6 +362,7 @@ func runCheck(id, tier, repo, verif string, writeEvidence bool) int {
 			continue
 		}
 		cr.solverMs += r.Res.Ms
+		expandKnown(r.Obl.Name)
 		if f, ok := known[r.Obl.Name]; ok {
 			if r.OK {
 				// the defect no longer shows: nothing to report (a fixed finding must not be listed; note it)
@@ -349,11 +371,14 @@ func runCheck(id, tier, repo, verif string, writeEvidence bool) int {
 				discharged++
 				continue
 			}
-			if stillFails, ran := witness[r.Obl.Name]; f.Witness != "" && (!ran || !stillFails) {
+			if stillFails, ran := witness[f.Obligation]; f.Witness != "" && (!ran || !stillFails) {
 				report(r.Obl.Name, r.Obl.Kind, "this obligation is listed as a known finding, but its committed witness no longer fails on this tree while the obligation still does: a different violation of the same obligation\n\nwitness run:\n"+truncate(witnessOut, 3000), r)
 				continue
 			}
-			fmt.Printf("KNOWN-FINDING: property=%s %s — %s\n", id, r.Obl.Name, f.What)
+			if !printedKnown[f.Obligation] {
+				printedKnown[f.Obligation] = true
+				fmt.Printf("KNOWN-FINDING: property=%s %s — %s\n", id, f.Obligation, f.What)
+			}
 			knownHit = append(knownHit, r.Obl.Name)
 			continue
 		}
@@ -379,6 +404,12 @@ func runCheck(id, tier, repo, verif string, writeEvidence bool) int {
 	for _, ex := range cr.extras {
 		total++
 		byKind[ex.Kind]++
+		if ex.OK && strings.HasSuffix(ex.Name, "/sweep") && ex.Count > 1 {
+			// a sweep summary stands for Count individually discharged SMT obligations
+			total += ex.Count - 1
+			discharged += ex.Count - 1
+			byKind[ex.Kind] += ex.Count - 1
+		}
 		if ex.OK {
 			discharged++
 			if len(samples) < 16 {
@@ -386,17 +417,21 @@ func runCheck(id, tier, repo, verif string, writeEvidence bool) int {
 			}
 			continue
 		}
+		expandKnown(ex.Name)
 		if u, ok := unclaimed[ex.Name]; ok {
 			unclaimedHit = append(unclaimedHit, ex.Name+": "+u.Reason)
 			total--
 			continue
 		}
 		if f, ok := known[ex.Name]; ok {
-			if stillFails, ran := witness[ex.Name]; f.Witness != "" && (!ran || !stillFails) {
+			if stillFails, ran := witness[f.Obligation]; f.Witness != "" && (!ran || !stillFails) {
 				report(ex.Name, ex.Kind, "listed as a known finding, but its committed witness no longer fails on this tree while the check still does\n\n"+ex.Detail+"\n\nwitness run:\n"+truncate(witnessOut, 3000), nil)
 				continue
 			}
-			fmt.Printf("KNOWN-FINDING: property=%s %s — %s\n", id, ex.Name, f.What)
+			if !printedKnown[f.Obligation] {
+				printedKnown[f.Obligation] = true
+				fmt.Printf("KNOWN-FINDING: property=%s %s — %s\n", id, f.Obligation, f.What)
+			}
 			knownHit = append(knownHit, ex.Name)
 			total--
 			continue
